@@ -5051,5 +5051,17 @@ LIB.update({f"set.{m_}": lib_set_method(m_) for m_ in ("union", "intersection", 
                                                           "add", "discard", "remove", "update")})
 
 
-LIB.update({"arr.min": _arr_reduce(min), "arr.max": _arr_reduce(max), "arr.sum": _arr_reduce(lambda v: sum(v, sp.Integer(0)), lambda v: sum(v, sp.Integer(0))),
+def _opaque_extreme(tag):
+    """min / max of a small array of expressions: one of its entries, which one depends on the data - an atom over the (sorted) entries, positive
+    when they all are"""
+    def f(vals):
+        vals = sorted(vals, key=sp.default_sort_key)
+        if len({sp.srepr(v) for v in vals}) == 1:
+            return vals[0]
+        pos = all(v.is_positive for v in vals)
+        return sp.Function(tag, positive=True if pos else None)(*vals)
+    return f
+
+
+LIB.update({"arr.min": _arr_reduce(min, _opaque_extreme("MINOF")), "arr.max": _arr_reduce(max, _opaque_extreme("MAXOF")), "arr.sum": _arr_reduce(lambda v: sum(v, sp.Integer(0)), lambda v: sum(v, sp.Integer(0))),
             "arr.mean": _arr_reduce(lambda v: sum(v, sp.Integer(0)) / len(v), lambda v: sum(v, sp.Integer(0)) / len(v))})
